@@ -221,8 +221,12 @@ func init() {
 							facts = append(facts, c[0])
 						}
 					}
+					dirty := r.Intn(3) == 0 // lines drawn with replacement: a literal twice, a literal and its negation
 					for j := 0; j < 1+r.Intn(4); j++ {
-						line := gen.RandClause(r, n, r.Intn(4), true)
+						line := gen.RandClause(r, n, r.Intn(4), !dirty)
+						if dirty {
+							line = gen.RandClause(r, n, 1+r.Intn(4), false)
+						}
 						if len(facts) > 0 && r.Intn(2) == 0 {
 							f := facts[r.Intn(len(facts))]
 							if r.Intn(3) == 0 {
@@ -245,6 +249,14 @@ func init() {
 				if i%3 == 0 { // several uses of the same Problem value, a rejected certificate first: whatever a
 					// check leaves behind in the problem shows in the next use
 					bad := [][]int{gen.RandClause(r, n, 1+r.Intn(2), true)}
+					if r.Intn(3) == 0 { // a degenerate first line (a variable in both polarities, a literal twice)
+						v := 1 + r.Intn(n)
+						bad = [][]int{gen.Shuffle(r, [][]int{{v}, {-v}, {gen.RandLit(r, n)}})[0]}
+						bad[0] = append(bad[0], -bad[0][0])
+						if r.Intn(2) == 0 {
+							bad[0] = append(bad[0], gen.RandLit(r, n))
+						}
+					}
 					if r.Intn(2) == 0 {
 						bad = append(bad, []int{})
 					}
@@ -260,7 +272,7 @@ func init() {
 						default:
 							var cert [][]int
 							for x := 0; x < 1+r.Intn(3); x++ {
-								cert = append(cert, gen.RandClause(r, n, r.Intn(3), true))
+								cert = append(cert, gen.RandClause(r, n, r.Intn(3), r.Intn(4) != 0))
 							}
 							cert = append(cert, []int{})
 							seq = append(seq, gen.M{"op": "check", "entry": []string{"reader", "chan"}[r.Intn(2)], "src": "given", "cert": cert, "mut": "none", "seed": 0})
